@@ -4,10 +4,97 @@
 (2) the real writers produce each (input, format options) under a reference configuration and many others
     (threads 1..16, runtime flavour, channel 0/1/100, in-memory/temp-file staging, iterator/file/parallel
     source) with seeded and role-biased delays injected at the hook points; (3) the multi-threaded
-    converters are compared with their single-threaded output.  TLC judges that all digests agree."""
+    converters are compared with their single-threaded output.  TLC judges that all digests agree.
+(4) implementation -> spec: the hook events of traced runs are validated against Pipeline.tla (Trace_Pipeline)."""
 import json, random, hashlib
+from concurrent.futures import ThreadPoolExecutor
 from pyverif.core import *
 from checks import cli_family as cf
+
+
+def instances(trace):
+    """Cut the hook events of one writer run into pipeline instances: the staging buffers ONE file token
+    passes through in chromosome order (the data lanes of a pass, or the lanes of one zoom level).
+    Structural only: buffer ids are tied to (pass, lane position, chromosome rank) by the order of the
+    source thread's `pipe.chrom.setup` / `pipe.lane.new` events."""
+    lane, order, evs = {}, {}, {}
+    phase, seen, r, flag_prev = 0, set(), 0, None
+    for name, a, b in trace:
+        if name == "pipe.chrom.setup":
+            if a in seen or (flag_prev is not None and b != flag_prev):
+                phase += 1
+                seen = set()
+            seen.add(a)
+            flag_prev = b
+            r = 0
+        elif name == "pipe.lane.new":
+            key = (phase, r)
+            r += 1
+            k = order.get(key, 0) + 1
+            order[key] = k
+            lane[a] = (key, k)
+            evs.setdefault(key, []).append({"ev": "setup", "k": k, "st": 0})
+        elif name.startswith("tfb.") and a in lane:
+            key, k = lane[a]
+            ev = {"tfb.switch": "switch", "tfb.update": "update", "tfb.drop": "drop", "tfb.await.taken": "taken"}.get(name)
+            if ev:
+                evs[key].append({"ev": ev, "k": k, "st": b if ev == "update" else 0})
+    out = []
+    for key in sorted(evs):
+        n = order[key]
+        secs = [sum(1 for e in evs[key] if e["ev"] == "update" and e["k"] == k) for k in range(1, n + 1)]
+        out.append({"key": list(key), "secs": secs, "events": evs[key]})
+    return out
+
+
+def validate_pipeline_traces(run, traced):
+    """implementation -> spec: every pipeline instance of every traced run is validated against Pipeline.tla
+    by Trace_Pipeline (one TLC run per instance: the constants come from the trace header)."""
+    jobs = []
+    for ri, (desc, trace) in enumerate(traced):
+        for ii, inst in enumerate(instances(trace)):
+            path = os.path.join(run.wd, "pl_%d_%d.ndjson" % (ri, ii))
+            with open(path, "w") as f:
+                f.write(json.dumps({"secs": inst["secs"], "ev": "header", "k": 0, "st": 0}) + "\n")
+                for e in inst["events"]:
+                    f.write(json.dumps(e) + "\n")
+            jobs.append((ri, ii, path, inst, desc))
+
+    def one(j):
+        ri, ii, path, inst, desc = j
+        r = tlc("Trace_Pipeline", "Trace_Pipeline.cfg", os.path.join(run.wd, "tlc_pl_%d_%d" % (ri, ii)), env={"TRACE": path}, workers=1, timeout=600,
+                xmx="2g", dfs=True, collect_replays=False)
+        return j, r
+    with ThreadPoolExecutor(max_workers=max(2, NCPU // 2)) as ex:
+        res = list(ex.map(one, jobs))
+    acc, rej, states = 0, [], 0
+    lanes, writes, multi = 0, 0, 0
+    for (ri, ii, path, inst, desc), r in res:
+        states += r.generated
+        lanes += len(inst["secs"])
+        writes += sum(inst["secs"])
+        multi += sum(1 for x in inst["secs"] if x >= 2)
+        if r.violation and ("Invariant" in r.violation or "violated" in r.violation):
+            run.violation("C11: an invariant of Pipeline.tla (Deterministic / NoStuck / EndOK) is violated on an OBSERVED schedule of the real pipeline: %s instance %s" % (json.dumps(desc), inst["key"]),
+                          {"kind": "pipeline-trace", "config": desc, "instance": inst, "tlc": r.violation[:1500]})
+            continue
+        if any(x.startswith('<<"ACCEPTED"') for x in r.prints):
+            acc += 1
+        elif any(x.startswith('<<"REJECTED"') for x in r.prints):
+            h = int([x for x in r.prints if x.startswith('<<"REJECTED"')][0].split(",")[1].strip(" >"))
+            rej.append({"config": desc, "instance": inst["key"], "secs": inst["secs"], "matched_events": max(0, h - 2), "next_event": inst["events"][h - 2] if 0 <= h - 2 < len(inst["events"]) else None})
+        else:
+            raise ToolError("pipeline trace validation gave no verdict:\n" + r.out[-2000:])
+    run.cov["pipeline_trace_validation"] = {"runs_traced": len(traced), "instances_validated": len(jobs), "accepted": acc, "rejected": len(rej), "lanes": lanes,
+                                            "buffer_writes": writes, "lanes_with_2plus_writes": multi, "tlc_states": states, "rejections": rej[:5]}
+    run.cov["states"] += states
+    run.cov["traces_validated_against_impl"] += acc
+    if not jobs or lanes < 20 or multi < 3:
+        raise ToolError("vacuity: pipeline traces too thin (%d instances, %d lanes, %d lanes with >= 2 writes)" % (len(jobs), lanes, multi))
+    # a schedule the model does not explain is model drift (the bytes are judged separately), not a violation of C11
+    run.drift += len(rej)
+    for x in rej[:3]:
+        log("[C11] MODEL-DRIFT detail: observed schedule not explained by Pipeline.tla: %s" % json.dumps(x)[:400])
 
 
 def configs(rng, n, pass_):
@@ -22,8 +109,8 @@ def configs(rng, n, pass_):
 
 def main():
     run = Run("C11")
-    for c in ("a", "b", "c"):
-        r = tlc("Pipeline", "Pipeline_%s.cfg" % c, os.path.join(run.wd, "pipe_" + c), workers=8, timeout=1800, deadlock_off=True, xmx="6g")
+    for c in ("a", "b", "c", "d"):
+        r = tlc("MC_Pipeline", "Pipeline_%s.cfg" % c, os.path.join(run.wd, "pipe_" + c), workers=8, timeout=1800, deadlock_off=True, xmx="6g")
         tlc_must_pass(r, "Pipeline.tla Deterministic / NoStuck / Terminates (%s)" % c)
         run.add_tlc("pipeline_" + c, r)
     rng = random.Random(run.seed)
@@ -46,7 +133,27 @@ def main():
         cases.append({"kind": "bw" if k % 2 == 0 else "bb", "perchrom": perchrom, "ips": 256, "bs": 256, "compress": 1, "zooms": None if k % 2 else [10, 40],
                       "configs": [dict(c_, source=("iter" if j == 0 else "parallel"), threads=(1 if j == 0 else rng.choice([2, 4, 8])), rt=("current" if j == 0 else "multi"))
                                   for j, c_ in enumerate(configs(rng, ncfg, 1 + k % 2))]})
+    # runs whose hook events are recorded and validated against Pipeline.tla: uncompressed, larger chromosomes (several
+    # buffer writes per lane), both staging kinds, both pass modes, all sources
+    ntr = len(cases)
+    for k in range(6 if run.thorough else 3):
+        kind = "bw" if k % 2 == 0 else "bb"
+        perchrom = [rng.choice([30, 1500, 4000, 9000]) for _ in range(rng.choice([2, 3, 4]))]
+        perchrom[rng.randrange(len(perchrom))] = 9000
+        cfgs = configs(rng, 8 if run.thorough else 4, 1 + k % 2)
+        for c_ in cfgs:
+            c_["trace"] = 1
+        cases.append({"kind": kind, "perchrom": perchrom, "ips": rng.choice([64, 256]), "bs": 256, "compress": 0, "zooms": [None, [10, 40], []][k % 3], "configs": cfgs})
     obs = run_harness("det", cases, run.wd, hang_timeout=120, shards=4)
+    traced = []
+    for o in obs:
+        for c_, r_ in zip(o["configs"], o["obs"].get("runs", [])):
+            if "trace" in r_:
+                if r_["ok"]:
+                    traced.append(({"kind": o["kind"], "perchrom": o["perchrom"], "ips": o["ips"], "zooms": o["zooms"], "cfg": c_}, r_.pop("trace")))
+                else:
+                    r_.pop("trace")
+    validate_pipeline_traces(run, traced)
     lines, classes = [], {}
     nruns = 0
     for o in obs:
